@@ -94,13 +94,6 @@ def createBucketIfNotExists (d : DB) (p : Path) (n : Bytes) : Except Err DB :=
   | .error .bucketExists => .ok d
   | r => r
 
-/-- bbolt `Bucket.DeleteBucket`: removes the bucket and everything below it. -/
-def deleteBucket (d : DB) (p : Path) (n : Bytes) : Except Err DB :=
-  match d[p ++ [n]]? with
-  | none => .error .bucketNotFound
-  | some (.val _) => .error .incompatibleValue
-  | some (.bucket _) => .ok (d.filter (fun q _ => !(p ++ [n]).isPrefixOf q))
-
 /-- `some k` iff `q = p ++ [k]`. -/
 def childKey : Path → Path → Option Bytes
   | [], [k] => some k
@@ -116,6 +109,16 @@ def Entry.shown : Entry → Option Bytes
 a nested bucket shows a nil value. -/
 def view (d : DB) (p : Path) : List (Bytes × Option Bytes) :=
   d.toList.filterMap (fun qe => (childKey p qe.1).map (fun k => (k, qe.2.shown)))
+
+/-- bbolt `Bucket.DeleteBucket`: removes the bucket and everything below it.
+Quirk (bbolt v1.3.11, found by the differential run): on an EMPTY bucket `seek` returns a nil key and
+`bytes.Equal(emptyName, nil)` holds, so deleting the empty name answers `ErrIncompatibleValue`, not
+`ErrBucketNotFound`. -/
+def deleteBucket (d : DB) (p : Path) (n : Bytes) : Except Err DB :=
+  match d[p ++ [n]]? with
+  | none => if n.isEmpty && (view d p).isEmpty then .error .incompatibleValue else .error .bucketNotFound
+  | some (.val _) => .error .incompatibleValue
+  | some (.bucket _) => .ok (d.filter (fun q _ => !(p ++ [n]).isPrefixOf q))
 
 /-- index of the first entry with key ≥ `k` (bbolt `Cursor.seek` + the "move to next page" fix-up in `Seek`). -/
 def seekPos (l : List (Bytes × Option Bytes)) (k : Bytes) : Nat :=
